@@ -69,7 +69,10 @@ def run(rng, tier, res=None):
                     D[r][rng.randrange(d)] = 1.0
             res.hit("sparse_zero_data")
         if case % 4 == 3:
-            D = D.astype(np.float32)       # single-precision datasets: both routes must evaluate the metric on the SAME values
+            D = D.astype(np.float32)
+        elif case % 7 == 5 and np.all(D == np.round(D)):
+            D = D.astype(np.int64)         # integer-typed features (counts, pixel intensities): the file still holds the real-valued metric
+            res.hit("integer_typed_dataset")       # single-precision datasets: both routes must evaluate the metric on the SAME values
         Y = np.array([i % 2 for i in range(N)], dtype=int); rng.shuffle(Y)
         ext = rng.choice(["txt", "csv"])
         # a few path names are re-used, so files are overwritten with other datasets (often of the same shape):
@@ -103,21 +106,25 @@ def run(rng, tier, res=None):
             X1, X2, Y1, Y2, I1, I2 = splitter.split_with_index(D, Y, pct, seed)
             if len(set(Y1.tolist())) < 2:
                 res.hit("skipped_single_class"); continue
+            bm = metric
+            if case % 3 != 0:
+                bm = rng.choice(["log_squared_euclidean", "euclidean", "manhattan", metric])    # the file decides, not this option
+                res.hit("file_backed_model_with_other_metric_option" if bm != metric else "file_backed_model_same_option")
             if kind == "sup":
                 a = SupervisedOPF(distance=metric); a.fit(X1.copy(), Y1.copy()); pa = a.predict(X2.copy())
-                b = SupervisedOPF(distance=metric, pre_computed_distance=path); b.fit(X1.copy(), Y1.copy(), I1); pb = b.predict(X2.copy(), I2)
+                b = SupervisedOPF(distance=bm, pre_computed_distance=path); b.fit(X1.copy(), Y1.copy(), I1); pb = b.predict(X2.copy(), I2)
             elif kind == "semi":
                 nl = max(4, N // 2); nu = 2
                 Yl = Y[:nl].copy()
                 if len(set(Yl.tolist())) < 2:
                     Yl[0], Yl[1] = 0, 1
                 a = SemiSupervisedOPF(distance=metric); a.fit(D[:nl].copy(), Yl.copy(), D[nl:nl + nu].copy()); pa = a.predict(D[nl + nu:].copy())
-                b = SemiSupervisedOPF(distance=metric, pre_computed_distance=path)
+                b = SemiSupervisedOPF(distance=bm, pre_computed_distance=path)
                 b.fit(D[:nl].copy(), Yl.copy(), D[nl:nl + nu].copy(), np.arange(nl)); pb = b.predict(D[nl + nu:].copy(), np.arange(nl + nu, N))
             else:
                 mk = min(3, len(X1) - 1)
                 a = UnsupervisedOPF(min_k=1, max_k=mk, distance=metric); a.fit(X1.copy(), Y1.copy()); pa = a.predict(X2.copy())
-                b = UnsupervisedOPF(min_k=1, max_k=mk, distance=metric, pre_computed_distance=path)
+                b = UnsupervisedOPF(min_k=1, max_k=mk, distance=bm, pre_computed_distance=path)
                 b.fit(X1.copy(), Y1.copy(), I1); pb = b.predict(X2.copy(), I2)
             msgs = []
             sa, sb = state(a), state(b)
@@ -175,9 +182,40 @@ def run(rng, tier, res=None):
                 msgs.append("get_distances(normalize=True) is not repeatable on one fitted model")
             # the file-backed model reports the file's entries for its own training samples
             Gb = b.get_distances()
-            if kind != "semi" and np.array(Gb).tobytes() != Gm0.tobytes():
+            if kind != "semi" and bm == metric and np.array(Gb).tobytes() != Gm0.tobytes():
                 msgs.append(f"get_distances() of the file-backed {kind} model differs from the metric on its training pairs")
             res.hit("get_distances_sequence")
+            # a file-backed object switched back to its metric is an on-the-fly model again (index arrays no longer needed)
+            if kind in ("sup", "semi") and bm == metric:
+                try:
+                    b.pre_computed_distance = False
+                    if kind == "sup":
+                        b.fit(X1.copy(), Y1.copy()); pb2 = b.predict(X2.copy())
+                    else:
+                        b.fit(D[:nl].copy(), Yl.copy(), D[nl:nl + nu].copy()); pb2 = b.predict(D[nl + nu:].copy())
+                    if state(b) != sa or repr(pb2) != repr(pa):
+                        msgs.append(f"{kind}/{metric}: a file-backed model switched back with pre_computed_distance = False and re-fitted on the "
+                                    f"features differs from on-the-fly training")
+                    res.hit("switched_back_to_metric")
+                except Exception as ex:
+                    msgs.append(f"{kind}/{metric}: re-fit after pre_computed_distance = False raised {type(ex).__name__}")
+            # a matrix handed over through the setter stays the caller's: no request may rewrite it
+            if kind == "sup":
+                try:
+                    nn_ = len(X1)
+                    Ms = np.array([[float(fn(X1[u].copy(), X1[v].copy())) for v in range(nn_)] for u in range(nn_)])
+                    ms_b = Ms.tobytes()
+                    c2 = SupervisedOPF(distance=metric); c2.pre_computed_distance = True; c2.pre_distances = Ms
+                    c2.fit(X1.copy(), Y1.copy())
+                    g1 = np.array(c2.get_distances(), copy=True); c2.get_distances(normalize=True); g2 = np.array(c2.get_distances(), copy=True)
+                    if Ms.tobytes() != ms_b:
+                        res.violations.append({"property": "C07", "what": "get_distances(normalize=True) rewrote the matrix the caller assigned through "
+                                               "the pre_distances setter", "replay": meta})
+                    if g1.tobytes() != g2.tobytes() or g1.tobytes() != ms_b:
+                        msgs.append("get_distances() of a model holding a setter-assigned matrix differs from that matrix / changes after a normalised request")
+                    res.hit("setter_assigned_matrix")
+                except Exception as ex:
+                    msgs.append(f"setter-assigned matrix scenario raised {type(ex).__name__}: {ex}")
             viol(msgs, meta)
             own = {"sup": "C01", "semi": "C15", "unsup": "C13"}[kind]
             for m_ in [m for m in msgs if "pre-computed vs on-the-fly" in m][:1]:
